@@ -100,3 +100,36 @@ Definition check_ocase (c : ocase) : bool :=
   | _ => false
   end.
 Definition bad_ocases := bad check_ocase.
+
+(* ------------------------------------------------------------------ histories on ONE MemoryClient
+   storage states are identity numbers of the observable contents (0 = the fresh client);
+   the model predicts where a failed script leaves the client: at its last COMMITTED state *)
+Inductive hevent :=
+| HDeploy (after : N)          (* MemoryClient::deploy succeeded or not; contents afterwards *)
+| HScriptOk (after : N)        (* transact, no Revert / Panic receipt *)
+| HScriptFailed (after : N)    (* transact, a Revert / Panic receipt *)
+| HScriptError (after : N).    (* transact, the interpreter returned an error (no state transition) *)
+
+Fixpoint replay_hist (s : @mstorage N) (evs : list hevent) : bool :=
+  match evs with
+  | [] => true
+  | HDeploy a :: t => replay_hist (client_deploy s (fun _ => a)) t
+  | HScriptOk a :: t =>
+      let s' := client_transact s (fun _ => a) true [RcReturn true RK_Return; RcScriptResult SER_Success 0] in
+      (ms_memory s' =? a) && replay_hist s' t
+  | HScriptFailed a :: t =>
+      (* whatever the interpreter wrote (here: a marker that never is a state id) is discarded *)
+      let s' := client_transact s (fun _ => 1000000) true [RcRevert; RcScriptResult SER_Revert 0] in
+      (ms_memory s' =? a) && replay_hist s' t
+  | HScriptError a :: t =>
+      let s' := client_transact s (fun _ => 1000000) false [] in
+      (ms_memory s' =? a) && replay_hist s' t
+  end.
+
+Inductive xcase := XRun (c : ocase) | XHist (evs : list hevent).
+Definition check_xcase (x : xcase) : bool :=
+  match x with
+  | XRun c => check_ocase c
+  | XHist evs => replay_hist {| ms_memory := 0; ms_transacted := 0 |} evs
+  end.
+Definition bad_xcases := bad check_xcase.
